@@ -353,6 +353,41 @@ Theorem C14_connection_flag_refuted :
 Proof. exact connflag_refuted. Qed.
 Print Assumptions C14_connection_flag_refuted.
 
+(* ---------- the charset step (auto-decode) after the decoding decision ---------- *)
+
+(* if what the stack returned still names a coding, the charset step does not touch it: with
+   `C14_nothing_wanted_nothing_touched` an unsupported / undecoded coding is delivered byte for byte
+   whatever the Content-Type and its charset say *)
+Theorem C14_charset_step_skips_coded : forall dis st c auto ended r,
+  header_get (r_ce (respond st c auto ended r)) <> [] ->
+  charset_step_applies dis (respond st c auto ended r) = false.
+Proof. exact charset_step_skips_coded. Qed.
+Print Assumptions C14_charset_step_skips_coded.
+
+(* a decoded response names no coding any more: the charset step sees the original text *)
+Theorem C14_charset_step_sees_decoded : forall dis st c auto r e,
+  r_cl r <> 0%Z -> wants_decode c auto (content_encoding (r_ce r)) = Some e ->
+  charset_step_applies dis (respond st c auto false r) = negb dis.
+Proof. exact charset_step_sees_decoded. Qed.
+Print Assumptions C14_charset_step_sees_decoded.
+
+(* the guard is what the source says (table regenerated from transport.go on every run) *)
+Theorem C14_charset_guard_as_modelled :
+  charset_step_guard =
+  [ (bs "autoDecodeResponseBody",
+     bs "t.disableAutoDecode || res.Header.Get(""Content-Encoding"") != """"", bs "return") ].
+Proof. exact charset_guard_as_modelled. Qed.
+Print Assumptions C14_charset_guard_as_modelled.
+
+(* a guard that only knows an enumerated list of codings (NOT the code) runs the charset decoder over
+   an lz4 body that every stack left untouched *)
+Theorem C14_listed_guard_refuted :
+  forall st, respond st (cfg_under s_on q_plain) true false r_lz4 = r_lz4 /\
+  charset_step_applies false (respond st (cfg_under s_on q_plain) true false r_lz4) = false /\
+  charset_step_applies_listed false (respond st (cfg_under s_on q_plain) true false r_lz4) = true.
+Proof. exact listed_guard_refuted. Qed.
+Print Assumptions C14_listed_guard_refuted.
+
 (* ---------- several clients (Client.Clone) ---------- *)
 
 (* what client k gets depends on client k's own settings only, whatever the original and the other
